@@ -5,6 +5,7 @@ package xpath
 // XPath 1.0 answer. Used to confirm fix: commits and as replay support.
 
 import (
+	"strconv"
 	"fmt"
 	"time"
 	"math"
@@ -1101,4 +1102,332 @@ func TestProbe_evalNoRuntimeError(t *testing.T) {
 		}
 	}
 	t.Logf("%d expressions compiled and were evaluated", ok)
+}
+
+func TestProbe_comparisons(t *testing.T) {
+	root := wdoc(`<r><b i="1">1</b><b i="x">x</b><b i="2">2</b><b i="3">10</b><c>2</c><c>y</c><e/></r>`)
+	type operand struct {
+		src  string
+		kind string // num str set bool
+		num  float64
+		str  string
+		set  []string
+		b    bool
+	}
+	nan := math.NaN()
+	ops := []operand{
+		{src: "1", kind: "num", num: 1}, {src: "2", kind: "num", num: 2}, {src: "number('x')", kind: "num", num: nan}, {src: "10", kind: "num", num: 10}, {src: "0", kind: "num", num: 0},
+		{src: "'1'", kind: "str", str: "1"}, {src: "'x'", kind: "str", str: "x"}, {src: "''", kind: "str", str: ""}, {src: "'2'", kind: "str", str: "2"},
+		{src: "//b", kind: "set", set: []string{"1", "x", "2", "10"}}, {src: "//b/@i", kind: "set", set: []string{"1", "x", "2", "3"}}, {src: "//c", kind: "set", set: []string{"2", "y"}}, {src: "//zz", kind: "set", set: nil}, {src: "//e", kind: "set", set: []string{""}},
+		{src: "true()", kind: "bool", b: true}, {src: "false()", kind: "bool", b: false},
+	}
+	toNum := func(s string) float64 {
+		s = strings.TrimSpace(s)
+		v, err := strconv.ParseFloat(s, 64)
+		if err != nil {
+			return nan
+		}
+		return v
+	}
+	cmpNum := func(op string, a, b float64) bool {
+		switch op {
+		case "=":
+			return a == b
+		case "!=":
+			return a != b
+		case "<":
+			return a < b
+		case "<=":
+			return a <= b
+		case ">":
+			return a > b
+		}
+		return a >= b
+	}
+	cmpStr := func(op string, a, b string) bool {
+		if op == "=" {
+			return a == b
+		}
+		return a != b
+	}
+	truth := func(o operand) bool {
+		switch o.kind {
+		case "num":
+			return o.num != 0 && !math.IsNaN(o.num)
+		case "str":
+			return o.str != ""
+		case "set":
+			return len(o.set) > 0
+		}
+		return o.b
+	}
+	eval := func(ex string) (interface{}, error) {
+		e, err := Compile(ex)
+		if err != nil {
+			return nil, err
+		}
+		var v interface{}
+		func() {
+			defer func() {
+				if r := recover(); r != nil {
+					err = fmt.Errorf("panic: %v", r)
+				}
+			}()
+			v = e.Evaluate(&TNodeNavigator{curr: root, root: root, attr: -1})
+		}()
+		return v, err
+	}
+	bad := 0
+	report := func(ex string, got interface{}, want bool, err error) {
+		if err != nil || got != interface{}(want) {
+			if bad < 40 {
+				t.Errorf("%s: got %v (%v), want %v", ex, got, err, want)
+			}
+			bad++
+		}
+	}
+	for _, l := range ops {
+		for _, r := range ops {
+			for _, op := range []string{"=", "!=", "<", "<=", ">", ">="} {
+				rel := op != "=" && op != "!="
+				var want bool
+				inScope := true
+				switch {
+				case l.kind == "num" && r.kind == "num":
+					want = cmpNum(op, l.num, r.num)
+				case l.kind == "set" && r.kind == "num":
+					for _, s := range l.set {
+						want = want || cmpNum(op, toNum(s), r.num)
+					}
+				case l.kind == "num" && r.kind == "set":
+					for _, s := range r.set {
+						want = want || cmpNum(op, l.num, toNum(s))
+					}
+				case !rel && l.kind == "str" && r.kind == "str":
+					want = cmpStr(op, l.str, r.str)
+				case !rel && l.kind == "set" && r.kind == "str":
+					for _, s := range l.set {
+						want = want || cmpStr(op, s, r.str)
+					}
+				case !rel && l.kind == "str" && r.kind == "set":
+					for _, s := range r.set {
+						want = want || cmpStr(op, l.str, s)
+					}
+				case !rel && l.kind == "set" && r.kind == "set":
+					for _, a := range l.set {
+						for _, b := range r.set {
+							want = want || cmpStr(op, a, b)
+						}
+					}
+				default:
+					inScope = false
+				}
+				if !inScope {
+					continue
+				}
+				ex := l.src + " " + op + " " + r.src
+				got, err := eval(ex)
+				report(ex, got, want, err)
+			}
+			for _, op := range []string{"and", "or"} {
+				want := truth(l) && truth(r)
+				if op == "or" {
+					want = truth(l) || truth(r)
+				}
+				ex := l.src + " " + op + " " + r.src
+				got, err := eval(ex)
+				report(ex, got, want, err)
+			}
+		}
+		got, err := eval("boolean(" + l.src + ")")
+		report("boolean("+l.src+")", got, truth(l), err)
+		if l.kind == "bool" || l.kind == "set" {
+			got, err := eval("not(" + l.src + ")")
+			report("not("+l.src+")", got, !truth(l), err)
+		}
+	}
+}
+
+func TestProbe_arithmetic(t *testing.T) {
+	root := wdoc(`<r><n>1</n><n>2.5</n><n>-3</n><m>x</m><e/></r>`)
+	eval := func(ex string) interface{} {
+		e, err := Compile(ex)
+		if err != nil {
+			t.Fatalf("%s: %v", ex, err)
+		}
+		var v interface{}
+		func() {
+			defer func() {
+				if r := recover(); r != nil {
+					v = fmt.Sprint("panic: ", r)
+				}
+			}()
+			v = e.Evaluate(&TNodeNavigator{curr: root, root: root, attr: -1})
+		}()
+		return v
+	}
+	nan, inf := math.NaN(), math.Inf(1)
+	type op struct {
+		src string
+		v   float64
+	}
+	vals := []op{{"0", 0}, {"1", 1}, {"2", 2}, {"7", 7}, {"2.5", 2.5}, {".5", .5}, {"-3", -3}, {"- 3", -3}, {"--3", 3}, {"1000000", 1e6}, {"number('x')", nan}, {"1 div 0", inf}, {"-1 div 0", -inf}, {"number(//zz)", nan}, {"//n[1]", 1}, {"//n[2]", 2.5}, {"//m", nan}, {"'4'", 4}, {"'y'", nan}, {"true()", 1}, {"false()", 0}, {"count(//n)", 3}, {"sum(//n)", 0.5}, {"floor(2.5)", 2}, {"ceiling(2.5)", 3}, {"floor(-2.5)", -3}, {"ceiling(-2.5)", -2}, {"number('12')", 12}, {"count(//zz)", 0}, {"sum(//zz)", 0}, {"0.1", 0.1}, {"12345.678", 12345.678}}
+	same := func(a interface{}, w float64) bool {
+		f, ok := a.(float64)
+		if !ok {
+			return false
+		}
+		if math.IsNaN(w) {
+			return math.IsNaN(f)
+		}
+		return f == w
+	}
+	bad := 0
+	for _, a := range vals {
+		if got := eval("number(" + a.src + ")"); !same(got, a.v) {
+			t.Errorf("number(%s): got %v want %v", a.src, got, a.v)
+		}
+		for _, b := range vals {
+			for _, o := range []string{"+", "-", "*", "div", "mod"} {
+				var w float64
+				switch o {
+				case "+":
+					w = a.v + b.v
+				case "-":
+					w = a.v - b.v
+				case "*":
+					w = a.v * b.v
+				case "div":
+					w = a.v / b.v
+				case "mod":
+					if !(a.v >= 0 && b.v > 0 && a.v == math.Trunc(a.v) && b.v == math.Trunc(b.v)) || math.IsInf(a.v, 0) || math.IsInf(b.v, 0) {
+						continue // the property only speaks about non-negative integers and a non-zero divisor
+					}
+					w = math.Mod(a.v, b.v)
+				}
+				ex := "(" + a.src + ") " + o + " (" + b.src + ")"
+				if got := eval(ex); !same(got, w) && bad < 30 {
+					bad++
+					t.Errorf("%s: got %v want %v", ex, got, w)
+				}
+			}
+		}
+	}
+	for ex, want := range map[string]string{"string(0.5)": "0.5", "string(100)": "100", "string(-2.50)": "-2.5", "string(999999)": "999999", "string(0.000001)": "0.000001", "string(1 div 3)": "0.3333333333333333", "string(12345.678)": "12345.678", "string(-0.25)": "-0.25", "string(1000)": "1000", "string(3 - 3)": "0"} {
+		if got := eval(ex); got != interface{}(want) {
+			t.Errorf("%s: got %v want %v", ex, got, want)
+		}
+	}
+}
+
+func TestProbe_strings(t *testing.T) {
+	root := wdoc(`<r><s>hello world</s><s>abc</s><w>  a  b   c </w><e/><u>MiXed</u></r>`)
+	eval := func(ex string) interface{} {
+		e, err := Compile(ex)
+		if err != nil {
+			t.Fatalf("%s: %v", ex, err)
+		}
+		var v interface{}
+		func() {
+			defer func() {
+				if r := recover(); r != nil {
+					v = fmt.Sprint("panic: ", r)
+				}
+			}()
+			v = e.Evaluate(&TNodeNavigator{curr: root, root: root, attr: -1})
+		}()
+		return v
+	}
+	xround := func(f float64) float64 {
+		if math.IsNaN(f) || math.IsInf(f, 0) {
+			return f
+		}
+		return math.Floor(f + 0.5)
+	}
+	substr := func(s string, st, ln float64, hasLen bool) string {
+		var sb strings.Builder
+		for p := 1; p <= len(s); p++ {
+			fp := float64(p)
+			if !(fp >= xround(st)) {
+				continue
+			}
+			if hasLen && !(fp < xround(st)+xround(ln)) {
+				continue
+			}
+			sb.WriteByte(s[p-1])
+		}
+		return sb.String()
+	}
+	nums := []struct {
+		src string
+		v   float64
+	}{{"0", 0}, {"1", 1}, {"2", 2}, {"3", 3}, {"5", 5}, {"12", 12}, {"-1", -1}, {"-2.5", -2.5}, {"-0.5", -0.5}, {"0.5", 0.5}, {"1.5", 1.5}, {"2.5", 2.5}, {"2.4", 2.4}, {"100", 100}, {"number('x')", math.NaN()}, {"1 div 0", math.Inf(1)}, {"-1 div 0", math.Inf(-1)}, {"1.49", 1.49}, {"-41.5", -41.5}, {"41.5", 41.5}}
+	strs := []struct{ src, v string }{{"'12345'", "12345"}, {"'hello world'", "hello world"}, {"''", ""}, {"'a'", "a"}, {"//s", "hello world"}, {"//s[2]", "abc"}, {"//e", ""}}
+	bad := 0
+	fail := func(f string, a ...interface{}) {
+		if bad < 40 {
+			t.Errorf(f, a...)
+		}
+		bad++
+	}
+	for _, s := range strs {
+		for _, a := range nums {
+			ex := fmt.Sprintf("substring(%s, %s)", s.src, a.src)
+			if got := eval(ex); got != interface{}(substr(s.v, a.v, 0, false)) {
+				fail("%s: got %q want %q", ex, got, substr(s.v, a.v, 0, false))
+			}
+			for _, b := range nums {
+				ex := fmt.Sprintf("substring(%s, %s, %s)", s.src, a.src, b.src)
+				if got := eval(ex); got != interface{}(substr(s.v, a.v, b.v, true)) {
+					fail("%s: got %q want %q", ex, got, substr(s.v, a.v, b.v, true))
+				}
+			}
+		}
+		for _, u := range strs {
+			for _, c := range []struct {
+				f string
+				w interface{}
+			}{
+				{"contains", strings.Contains(s.v, u.v)}, {"starts-with", strings.HasPrefix(s.v, u.v)}, {"ends-with", strings.HasSuffix(s.v, u.v)},
+				{"concat", s.v + u.v},
+				{"substring-before", func() string {
+					if i := strings.Index(s.v, u.v); i >= 0 {
+						return s.v[:i]
+					}
+					return ""
+				}()},
+				{"substring-after", func() string {
+					if i := strings.Index(s.v, u.v); i >= 0 {
+						return s.v[i+len(u.v):]
+					}
+					return ""
+				}()},
+			} {
+				if strings.HasPrefix(u.src, "//") && c.f != "concat" && !strings.HasPrefix(c.f, "substring") {
+					continue // second argument must be a string for these in this implementation
+				}
+				ex := fmt.Sprintf("%s(%s, %s)", c.f, s.src, u.src)
+				if got := eval(ex); got != c.w {
+					fail("%s: got %v want %v", ex, got, c.w)
+				}
+			}
+		}
+		if got := eval("string-length(" + s.src + ")"); got != interface{}(float64(len(s.v))) {
+			fail("string-length(%s): got %v", s.src, got)
+		}
+		if got := eval("string(" + s.src + ")"); got != interface{}(s.v) {
+			fail("string(%s): got %v", s.src, got)
+		}
+	}
+	for ex, want := range map[string]interface{}{
+		"normalize-space('  a  b   c ')": "a b c", "normalize-space(//w)": "a b c", "normalize-space('')": "", "normalize-space('abc')": "abc", "normalize-space(' \t\n x \r\n')": "x",
+		"translate('bar','abc','ABC')": "BAr", "translate('--aaa--','abc-','ABC')": "AAA", "translate('abc','','x')": "abc", "translate('aab','aa','xy')": "xxb", "translate(//s[2],'abc','xyz')": "xyz",
+		"lower-case('MiXed')": "mixed", "lower-case(//u)": "mixed", "string-join(//s, ',')": "hello world,abc", "string-join(//zz, ',')": "", "string-join(//s, '')": "hello worldabc",
+		"concat('a','b','c')": "abc", "concat(//s[2], '-', //s)": "abc-hello world", "concat('', '')": "", "string(//zz)": "", "string(true())": "true", "string(false())": "false", "string('x')": "x",
+		"substring-before('a=b=c','=')": "a", "substring-after('a=b=c','=')": "b=c", "substring-before('abc','')": "", "substring-after('abc','')": "abc", "starts-with('abc','')": true, "contains('abc','')": true, "ends-with('abc','')": true,
+	} {
+		if got := eval(ex); got != want {
+			fail("%s: got %v want %v", ex, got, want)
+		}
+	}
 }
